@@ -57,6 +57,10 @@ class FactBase:
         if renames:
             mp = self._detect_renames()
             fr = dict(self.field_renames)
+            if getattr(self, "adt_moves", None):
+                # a moved struct: re-detect the functions after reading its paths at the old place
+                mp = dict(mp)
+                mp.update(self.adt_moves)
             if mp or fr:
                 self.renamed = dict(mp)
                 self.renamed.update({"field " + k: "field " + v for k, v in fr.items()})
@@ -80,9 +84,24 @@ class FactBase:
                 for f in v.get("fields", []):
                     all_field_names.setdefault(f["name"], set()).add(p_)
         self.field_renames = {}
-        for p_, old_fields in known_adts.items():
+        # moved structs: a struct of the inventory that no longer exists under its path while a struct with the same own name and the
+        # same fields exists elsewhere in the same crate: every path through it (its methods, its mentions in types) is read at the
+        # old place
+        self.adt_moves = {}
+        for p_, per_cfg in known_adts.items():
+            old_fields = per_cfg.get(self.cfg)
+            if old_fields is None or p_ in self.adts:
+                continue
+            last_ = p_.rsplit("::", 1)[-1]
+            cands = [q for q, a in self.adts.items() if q not in known_adts and q.rsplit("::", 1)[-1] == last_ and q.split("::")[0] == p_.split("::")[0]
+                     and len(a.get("variants", [])) == 1 and [f["name"] for f in a["variants"][0]["fields"]] == [n for n, _ in old_fields]]
+            if len(cands) == 1:
+                rel = lambda x: x.split("::", 1)[1] if "::" in x else x
+                self.adt_moves[rel(cands[0])] = rel(p_)
+        for p_, per_cfg in known_adts.items():
+            old_fields = per_cfg.get(self.cfg)
             a = self.adts.get(p_)
-            if a is None or len(a.get("variants", [])) != 1:
+            if old_fields is None or a is None or len(a.get("variants", [])) != 1:
                 continue
             cur = [[f["name"], f["ty"]] for f in a["variants"][0]["fields"]]
             if len(cur) != len(old_fields) or [t for _, t in cur] != [t for _, t in old_fields]:
@@ -96,12 +115,13 @@ class FactBase:
         new = [p for p in present if p not in known]
         if not missing or not new:
             return {}
-        sig = signature
+        nm = lambda xs: [re.sub(r"&('\w+ )?mut ", "&", x) if isinstance(x, str) else x for x in xs]   # `&mut self` <-> `&self` of a helper that only reads
+        sig = lambda it: nm(signature(it))
         parent = lambda p: p.rsplit("::", 1)[0]
         last = lambda p: p.rsplit("::", 1)[-1]
         cand = {}
         for o in missing:
-            c = [n for n in new if sig(present[n]) == known[o]["sig"] and (parent(n) == parent(o) or last(n) == last(o))]
+            c = [n for n in new if sig(present[n]) == nm(known[o]["sig"]) and (parent(n) == parent(o) or last(n) == last(o))]
             if len(c) > 1 and known[o].get("fp") is not None:
                 c2 = [n for n in c if fingerprint(present[n]) == known[o]["fp"]]
                 c = c2 if len(c2) == 1 else c
